@@ -34,7 +34,7 @@ func (m *Machine) chanMayFire(c *Chan) bool {
 	case *ctxData:
 		return !m.ctxCancelled(d) && m.ctxMayFire(d)
 	case *timerData:
-		return d.active && len(c.Buf) == 0
+		return d.active && len(c.Buf) == 0 && !m.cfg.TimersManual
 	}
 	return false
 }
@@ -68,6 +68,18 @@ func (m *Machine) chanSend(fr *frame, ch Value, v Value) {
 		c.Buf = append(c.Buf, copyVal(v))
 		return
 	}
+	if len(m.coros) > 0 {
+		for {
+			m.block(fmt.Sprintf("send blocks forever (channel full, no receiver) at %s", m.where()))
+			if c.Closed {
+				m.goPanicf("send on closed channel")
+			}
+			if len(c.Buf) < c.Cap {
+				c.Buf = append(c.Buf, copyVal(v))
+				return
+			}
+		}
+	}
 	m.end(endBlocked, "send blocks (channel full, no receiver modelled) at %s", m.where())
 }
 
@@ -76,9 +88,10 @@ func (m *Machine) chanRecv(fr *frame, ch Value, commaOk bool, instr *ssa.UnOp) V
 	if c == nil {
 		m.end(endBlocked, "receive on nil channel blocks forever at %s", m.where())
 	}
-	m.chanRefresh(c)
 	var v Value
 	ok := true
+retry:
+	m.chanRefresh(c)
 	switch {
 	case len(c.Buf) > 0:
 		v = c.Buf[0]
@@ -96,7 +109,8 @@ func (m *Machine) chanRecv(fr *frame, ch Value, commaOk bool, instr *ssa.UnOp) V
 			ok = false
 		}
 	default:
-		m.blockedForever(fmt.Sprintf("receive blocks forever (empty channel, nothing can make it ready) at %s", m.where()))
+		m.block(fmt.Sprintf("receive blocks forever (empty channel, nothing can make it ready) at %s", m.where()))
+		goto retry
 	}
 	if commaOk {
 		return Tuple{v, sym.Bool(ok)}
@@ -129,6 +143,8 @@ func (m *Machine) selectStmt(fr *frame, instr *ssa.Select) Value {
 		fire bool
 	}
 	var ready []cand
+reeval:
+	ready = ready[:0]
 	for i, st := range instr.States {
 		c, _ := fr.get(st.Chan).(*Chan)
 		if c == nil {
@@ -175,7 +191,8 @@ func (m *Machine) selectStmt(fr *frame, instr *ssa.Select) Value {
 		}
 	} else {
 		if len(ready) == 0 {
-			m.blockedForever(fmt.Sprintf("select blocks forever (no case can become ready) at %s", m.where()))
+			m.block(fmt.Sprintf("select blocks forever (no case can become ready) at %s", m.where()))
+			goto reeval
 		}
 		chosen = m.choice(len(ready), "select")
 	}
@@ -247,6 +264,9 @@ func (m *Machine) goStmt(fr *frame, instr *ssa.Go, fn Value, args []Value) {
 		}
 	}
 	switch mode {
+	case "coroutine":
+		m.event("go %s (coroutine)", name)
+		m.spawn(name, fn, args, instr)
 	case "inline":
 		m.event("go %s (run inline)", name)
 		if nm, ok := fn.(*nativeMethod); ok {
@@ -449,3 +469,198 @@ func (m *Machine) nowTerm() *sym.Term {
 }
 
 func (m *Machine) nowValue() Value { return m.mkTime(sym.True(), m.nowTerm()) }
+
+// ---------------------------------------------------------------------------
+// coroutines: goroutines of the program run as interpreter coroutines with
+// explicit hand-off; exactly one runs at a time. A goroutine runs until it
+// blocks; the harness decides when the others run (vrf_yield) and when time
+// passes (vrf_advance_time).
+
+type coro struct {
+	id      int
+	name    string
+	resume  chan bool
+	yielded chan struct{}
+	started bool
+	done    bool
+	panicV  interface{}
+	cur     *frame
+	blocked string
+}
+
+type coroKill struct{}
+
+func (m *Machine) spawn(name string, fn Value, args []Value, instr *ssa.Go) {
+	co := &coro{id: len(m.coros) + 1, name: name, resume: make(chan bool), yielded: make(chan struct{})}
+	m.coros = append(m.coros, co)
+	sig := instr.Call.Signature()
+	go func() {
+		run := <-co.resume
+		if !run {
+			co.done = true
+			co.yielded <- struct{}{}
+			return
+		}
+		defer func() {
+			if r := recover(); r != nil {
+				if _, ok := r.(coroKill); !ok {
+					co.panicV = r
+				}
+			}
+			co.done = true
+			co.yielded <- struct{}{}
+		}()
+		m.cur = nil
+		if nm, ok := fn.(*nativeMethod); ok {
+			m.callNativeMethod(nil, nm, args, sig)
+		} else {
+			m.call(nil, instr.Pos(), fn, args)
+		}
+	}()
+}
+
+// block is called by a blocking operation that cannot proceed. In a coroutine
+// it hands control back; in the main line it lets the coroutines run and only
+// gives up (BLOCKED-FOREVER) when none of them makes progress.
+func (m *Machine) block(msg string) {
+	co := m.curCoro
+	if co == nil {
+		if m.runCoros() {
+			return
+		}
+		m.blockedForever(msg)
+	}
+	co.blocked = msg
+	co.cur = m.cur
+	co.yielded <- struct{}{}
+	run := <-co.resume
+	if !run {
+		panic(coroKill{})
+	}
+	co.blocked = ""
+	m.cur = co.cur
+}
+
+// runCoros resumes every live coroutine once; reports whether any executed an instruction.
+func (m *Machine) runCoros() bool {
+	if m.curCoro != nil {
+		return false
+	}
+	progressed := false
+	for i := 0; i < len(m.coros); i++ {
+		co := m.coros[i]
+		if co.done {
+			continue
+		}
+		steps0 := m.steps
+		saved := m.cur
+		m.curCoro = co
+		co.started = true
+		co.resume <- true
+		<-co.yielded
+		m.curCoro = nil
+		m.cur = saved
+		if co.panicV != nil {
+			p := co.panicV
+			co.panicV = nil
+			panic(p)
+		}
+		if m.steps > steps0 {
+			progressed = true
+		}
+	}
+	return progressed
+}
+
+func (m *Machine) killCoros() {
+	for _, co := range m.coros {
+		if co.done {
+			continue
+		}
+		co.resume <- false
+		<-co.yielded
+	}
+}
+
+// fireTimers lets time pass: every active timer fires (tickers stay active).
+func (m *Machine) fireTimers() {
+	for _, n := range m.timers {
+		d := n.Data.(*timerData)
+		if d.active {
+			d.active = d.periodic
+			d.fired++
+			if len(d.ch.Buf) == 0 {
+				d.ch.Buf = append(d.ch.Buf, m.nowValue())
+			}
+			m.event("timer#%d fires", n.ID)
+		}
+	}
+}
+
+func (m *Machine) newTimer(periodic bool) (*Value, *Native) {
+	d := &timerData{active: true, periodic: periodic}
+	n := m.newNative("timer", d)
+	m.nextID++
+	d.ch = &Chan{ID: m.nextID, Cap: 1, Owner: n, ElemT: m.eng.nativeType("time.Time")}
+	tn := "time.Timer"
+	if periodic {
+		tn = "time.Ticker"
+	}
+	T := m.eng.nativeType(tn)
+	p := new(Value)
+	st := zero(T).(Struct)
+	st[fieldIndex(T, "C")] = d.ch
+	*p = st
+	m.natives[p] = n
+	m.timers = append(m.timers, n)
+	return p, n
+}
+
+func init() {
+	natives["time.NewTimer"] = func(m *Machine, c *frame, fn *ssa.Function, a []Value) Value {
+		p, _ := m.newTimer(false)
+		return p
+	}
+	natives["time.NewTicker"] = func(m *Machine, c *frame, fn *ssa.Function, a []Value) Value {
+		p, _ := m.newTimer(true)
+		return p
+	}
+	natives["time.After"] = func(m *Machine, c *frame, fn *ssa.Function, a []Value) Value {
+		_, n := m.newTimer(false)
+		return n.Data.(*timerData).ch
+	}
+	natives["time.Tick"] = func(m *Machine, c *frame, fn *ssa.Function, a []Value) Value {
+		_, n := m.newTimer(true)
+		return n.Data.(*timerData).ch
+	}
+	timerOf := func(m *Machine, v Value) *timerData {
+		p, ok := v.(*Value)
+		if !ok || p == nil || m.natives[p] == nil {
+			m.goPanicf("time: Stop/Reset called on uninitialized Timer")
+		}
+		return m.natives[p].Data.(*timerData)
+	}
+	// pre-go1.23 semantics (the module declares go 1.16): Stop/Reset do not drain the channel
+	natives["(*time.Timer).Stop"] = func(m *Machine, c *frame, fn *ssa.Function, a []Value) Value {
+		d := timerOf(m, a[0])
+		was := d.active
+		d.active = false
+		m.event("timer.Stop -> %v", was)
+		return sym.Bool(was)
+	}
+	natives["(*time.Timer).Reset"] = func(m *Machine, c *frame, fn *ssa.Function, a []Value) Value {
+		d := timerOf(m, a[0])
+		was := d.active
+		d.active = true
+		m.event("timer.Reset")
+		return sym.Bool(was)
+	}
+	natives["(*time.Ticker).Stop"] = func(m *Machine, c *frame, fn *ssa.Function, a []Value) Value {
+		timerOf(m, a[0]).active = false
+		return nil
+	}
+	natives["(*time.Ticker).Reset"] = func(m *Machine, c *frame, fn *ssa.Function, a []Value) Value {
+		timerOf(m, a[0]).active = true
+		return nil
+	}
+}
